@@ -411,8 +411,10 @@ func init() {
 					}
 				}
 			}
-			if len(tm) == len(cas.IDs) {
+			if len(tm) == len(cas.IDs) && len(tm) > 0 {
 				c14Exec(c, tm, cas.IDs)
+			} else {
+				c14Run(c) // object-reuse scenarios are replayed by re-running the (cheap) enumeration
 			}
 		},
 		Budget:      func(string) time.Duration { return 15 * time.Minute },
